@@ -31,10 +31,10 @@ func (c *CriteriaOmission) Spec_Apply(
 	props *model.BiasProps,
 	listener *model.BiasListener,
 ) *model.BiasedResult {
-	parsedProps, splitting := parseProps(props)
-	resolver := criteria_ordering.FetchOrderingResolver(&c.omissionResolvers, parsedProps)
+	parsedProps, splitting := Spec_parseProps(props)
+	resolver := criteria_ordering.Spec_FetchOrderingResolver(&c.omissionResolvers, parsedProps)
 	sortedCriteria := resolver.OrderCriteria(current, props, listener)
-	resParams, omitted := omitCriteria(sortedCriteria, splitting, current, listener)
+	resParams, omitted := Spec_omitCriteria(sortedCriteria, splitting, current, listener)
 	return &model.BiasedResult{
 		DMP:   resParams,
 		Props: CriteriaOmissionResult{OmittedCriteria: *omitted},
@@ -42,7 +42,7 @@ func (c *CriteriaOmission) Spec_Apply(
 }
 
 func Spec_parseProps(props *model.BiasProps) (*criteria_ordering.CriteriaOrdering, *criteria_splitting.CriteriaSplitCondition) {
-	ordering := criteria_ordering.Parse(props)
-	splittingProps := criteria_splitting.Parse(props)
+	ordering := criteria_ordering.Spec_Parse(props)
+	splittingProps := criteria_splitting.Spec_Parse(props)
 	return ordering, splittingProps
 }
